@@ -34,7 +34,7 @@ EXTENDS Naturals, Sequences, FiniteSets, TLC
 
 CONSTANTS MaxObj,    \* object slots
           MaxH,      \* number of coroutine handles available
-          MaxSteps,  \* bound on operations other than Destroy / Finish (0 = unbounded)
+          MaxSteps,  \* bound on operations other than Finish (0 = unbounded)
           Modes,     \* initial modes, subset of {"normal","coro"}
           Typed,     \* TRUE: suspend_point<int> objects take part
           Ops,       \* names of the operations that take part (bias of a configuration)
@@ -92,8 +92,8 @@ AddIter(o, s) ==
 (* The same in closed form (TLC evaluates the recursion above on a stack that is too small for runs
    of 25 and more handles): add() doubles the capacity - 3 inline slots, then the block - whenever
    count = capacity, so the run executes as many new[] as doublings are needed to hold everything.
-   The ASSUME below makes TLC check the equivalence for every start (inline / heap with 0..9 handles,
-   also after pops) and every run length 0..20 before each model-checking run. *)
+   The ASSUME below makes TLC check the equivalence for every start (inline / heap block of 6, 12, 24
+   holding 0..13 handles, also after pops) and every run length 0..26 before each model-checking run. *)
 RECURSIVE Doublings(_, _)
 Doublings(c, n) == IF n <= c THEN 0 ELSE 1 + Doublings(2 * c, n)
 AddRun(o, s) ==
@@ -102,7 +102,7 @@ AddRun(o, s) ==
     IN [o |-> [o EXCEPT !.h = @ \o s, !.heap = @ \/ j > 0, !.cap = IF o.heap \/ j > 0 THEN c0 * 2^j ELSE 0],
         a |-> j]
 
-ASSUME \A n0 \in 0..9, m \in 0..9, k \in 0..20 :
+ASSUME \A n0 \in 0..13, m \in 0..13, k \in 0..26 :
           m <= n0 =>
              LET full == AddIter(Fresh(FALSE, 0, <<>>), [i \in 1..n0 |-> i]).o
                  o == [full EXCEPT !.h = SubSeq(@, 1, m)]            \* after n0 - m pops
@@ -115,7 +115,6 @@ Cleared(o) == [o EXCEPT !.h = <<>>, !.heap = FALSE, !.cap = 0]
 
 Bump(r, s) == [x \in Handles |-> r[x] + Occ(s, x)]
 
-HasFree == \E k \in Slots : ~sp[k].live
 IsFree(k) == ~sp[k].live /\ \A j \in Slots : j < k => sp[j].live
 
 Init == /\ sp = [k \in Slots |-> Dead]
@@ -176,7 +175,7 @@ NewHandles(n) == [k \in 1..n |-> nextH + k]
 (* operator<<(coroutine_handle<>&&) :82 *)
 AddHandle(i) ==
     /\ Tick("AddHandle") /\ sp[i].live /\ nextH < MaxH
-    /\ LET r == AddRun(sp[i], <<nextH + 1>>)
+    /\ LET r == AddIter(sp[i], <<nextH + 1>>)
        IN sp' = [sp EXCEPT ![i] = r.o] /\ Grown(sp[i], r)
     /\ nextH' = nextH + 1
     /\ burst' = <<>> /\ ret' = 0
